@@ -187,12 +187,14 @@ def sameBag : List JVal → List JVal → Bool
 inductive Verdict where
   /-- both reject with the same bag of error kinds -/
   | bothReject (n : Nat)
-  /-- both accept and the lines denote the records; `n` = number of records -/
+  /-- both accept and the lines denote the records, IN THE ORDER of `emit`; `n` = number of records -/
   | bothAccept (n : Nat)
   | classDiffers (emf : String) (spec : String)
   | kindsDiffer (emf spec : List Nat)
   | unreadable (line : Nat)
   | recordsDiffer (nEmf nSpec : Nat)
+  /-- the same records, in another order than `emit` lists them -/
+  | orderDiffers (n : Nat)
   deriving Repr
 
 def Verdict.ok : Verdict → Bool
@@ -212,7 +214,8 @@ def compareWith (out : Emf.Result × List Nat) (cfg : Config) (sw : Switches) (o
     match lines.mapM readLine with
     | none => .unreadable ((lines.map readLine).findIdx (·.isNone))
     | some trees =>
-      if sameBag trees (rs.map (recordJson txt cfg.namespaces.length nowMs)) then .bothAccept rs.length
+      if beqList trees (rs.map (recordJson txt cfg.namespaces.length nowMs)) then .bothAccept rs.length
+      else if sameBag trees (rs.map (recordJson txt cfg.namespaces.length nowMs)) then .orderDiffers rs.length
       else .recordsDiffer trees.length rs.length
   | .validation _, .ok _ => .classDiffers "reject" "accept"
   | .ok, .error _ => .classDiffers "accept" "reject"
